@@ -742,13 +742,17 @@ def w_item(item, res):
 # ------------------------------------------------------------------------------------------------
 # part R: real K = 8, bounded-deviation histories
 
-R_CLASSES = [(0, 10), (1, 10), (2, 10), (3, 1), (4, 1)]   # (prefix length, contacts)
+# (prefix length, contacts in the alphabet).  Classes 0, 2, 3 are filled with 10 contacts each; class 1 contributes
+# ONE contact to the default history (a lone contact in a bucket between two populated neighbours: removing it makes
+# both neighbours absorb the bucket) and its boundary contacts (midpoint, midpoint-1, ...) as newcomers; class 4 is a
+# single contact next to the own id.
+R_CLASSES = [(0, 10), (1, 5), (2, 10), (3, 10), (4, 1)]
+R_BIG = (0, 2, 3)
 
 
 def real_contacts(own_hex):
-    """5 prefix classes: 3 x 10 contacts over the bucket boundaries, 2 singleton classes (a bucket that one
-    removal empties so that both neighbours absorb it); plus 3 same-address/new-id and 3 same-id/new-address
-    newcomers."""
+    """5 prefix classes with contacts on and around the bucket boundaries, plus 3 same-address/new-id and 3
+    same-id/new-address newcomers (one per big class)."""
     o = int(own_hex, 16)
     cs = []
     for c, n in R_CLASSES:
@@ -758,10 +762,10 @@ def real_contacts(own_hex):
         for j, off in enumerate(offs):
             cs.append((i2b(o ^ (base + off)).hex(), f'2.{c}.0.{j + 1}', PORT))
     first = {c: sum(n for _, n in R_CLASSES[:k]) for k, (c, _) in enumerate(R_CLASSES)}
-    for c in (0, 1, 2):
+    for c in R_BIG:
         base = 2 ** (383 - c)
         cs.append((i2b(o ^ (base + 77)).hex(), f'2.{c}.0.1', PORT))          # new id at first contact's address
-    for c in (0, 1, 2):
+    for c in R_BIG:
         cs.append((cs[first[c]][0], f'2.{c}.9.9', PORT))                      # first contact's id, new address
     return cs
 
@@ -775,14 +779,15 @@ def real_classes():
 
 
 def real_default():
-    """default fill order: round robin over the three big classes, the two singletons after round 4"""
+    """default fill order: round robin over the three big classes; the lone class-1 contact and the class-4
+    contact after round 4"""
     idx, _ = real_classes()
     order = []
     for j in range(10):
-        for c in (0, 1, 2):
+        for c in R_BIG:
             order.append(('add', idx[c][j], 'a'))
         if j == 3:
-            order.append(('add', idx[3][0], 'a'))
+            order.append(('add', idx[1][0], 'a'))
             order.append(('add', idx[4][0], 'a'))
     return order
 
@@ -822,6 +827,7 @@ def real_edits(contacts, default, thorough):
                 ins.append(('rep', a))
                 ins.append(('fail', a))
         ins += [('repall',), ('clk', 61), ('clk', 721)]
+        ins += [('add', idx[1][3], 'a'), ('add', idx[1][4], 'a')]      # class 1: midpoint, midpoint-1
         for i in range(nreal, len(contacts)):
             ins.append(('add', i, 'a'))
             if thorough:
